@@ -5,7 +5,7 @@ import "osmcheck/core"
 // c14AllBenign lists the behaviour-preserving variants of every round.
 func c14AllBenign() []core.Mutant {
 	var out []core.Mutant
-	for _, l := range [][]core.Mutant{c14Benign, c14Benign5, c14Benign6, c14Benign7, c14Benign8, c14Benign8DS} {
+	for _, l := range [][]core.Mutant{c14Benign, c14Benign5, c14Benign6, c14Benign7, c14Benign8, c14Benign8DS, c14Benign9} {
 		out = append(out, l...)
 	}
 	return out
@@ -14,7 +14,7 @@ func c14AllBenign() []core.Mutant {
 // c14ExtraMutants lists the generated defects of every round (the hand-written ones are in c14_reg.go).
 func c14ExtraMutants() []core.Mutant {
 	var out []core.Mutant
-	for _, l := range [][]core.Mutant{c14MoreMutants, c14Mutants5, c14Mutants6, c14Mutants7, c14Mutants8, c14Mutants8DS} {
+	for _, l := range [][]core.Mutant{c14MoreMutants, c14Mutants5, c14Mutants6, c14Mutants7, c14Mutants8, c14Mutants8DS, c14Mutants9} {
 		out = append(out, l...)
 	}
 	return out
